@@ -101,6 +101,27 @@ theorem split_request_not_linearisable (cs : List (Nat × Op)) :
   have := exports_never_list_an_id_twice cs _ h
   simp [idsOf] at this
 
+/-! ### The handler level -/
+
+/-- Every `ServeHTTP` of package har makes at most one call of a log method per execution, the
+    export handler answers with the result of `Export`, the reset handler with the result of
+    `ExportAndReset` (regenerated; kernel-checked test of the generated table).  So a handler call
+    is the same atomic step as the method it wraps, and `concurrent_execution_is_sequential` covers
+    histories that mix handler calls with direct calls. -/
+theorem facts_handler_discipline : HandlersOK Generated.HarLog.handlerTable = true := by decide
+
+/-- The shape of C17-H (answer from an Export snapshot, clear with a second call) is rejected. -/
+theorem split_reset_handler_table_rejected :
+    HandlersOK [("exportHandler", 0, 1, ["Export"]), ("resetHandler", 0, 2, ["Export"])] = false ∧
+    HandlersOK [("exportHandler", 0, 1, ["Export"]), ("resetHandler", 0, 1, ["Export"])] = false := by decide
+
+/-- … and this is what it does: the request was accepted, its response recorded, no reset was
+    made — yet the handler answered with nothing, and nothing is left: the completed entry was
+    removed (by the call whose result was dropped) without ever being returned.  In a sequential
+    history that cannot happen (`completed_returned_by_next_export_and_reset`). -/
+theorem split_reset_handler_loses_entry :
+    SplitResetHandler.race "a" = (.log [], .log [⟨"a", 0, some 1⟩], .log []) := by decide
+
 /-! ### Non-vacuity (concrete tests) -/
 
 /-- two threads, three schedules of the same programs: all defined, all sequential. -/
